@@ -169,6 +169,11 @@ struct Zoo : ZooBase
 	std::chrono::system_clock::time_point tp{};
 	std::chrono::time_point<std::chrono::system_clock, std::chrono::milliseconds> tpMs{};
 
+	// documents written by "another version of the class" (saving only): the same member names, other member types
+	bool altSetDoc = false;                                         // "uset"/"mset" written from vectors of optionals: the document has null elements
+	std::vector<std::optional<std::string>> usetAlt;
+	std::vector<std::optional<int32_t>> msetAlt;
+
 	// which load modes are applied to mapOnlyExist/mapUpdate (Clean when false: used for plain round trips)
 	bool useLoadModes = false;
 	// XML element names cannot be numbers: maps with integer keys are left out there
@@ -201,8 +206,8 @@ struct Zoo : ZooBase
 		F(KeyValue("stk", stk));
 		F(KeyValue("pq", pq));
 		F(KeyValue("set", set));
-		F(KeyValue("mset", mset));
-		F(KeyValue("uset", uset));
+		if (!A::IsLoading() && altSetDoc) { F(KeyValue("mset", msetAlt)); F(KeyValue("uset", usetAlt)); }
+		else { F(KeyValue("mset", mset)); F(KeyValue("uset", uset)); }
 		F(KeyValue("umset", umset));
 		F(KeyValue("map", map));
 		if (!skipIntKeyMaps) { F(KeyValue("imap", imap)); } else { ++idx; }
